@@ -4,6 +4,7 @@
   every schedule (every list of (goroutine, dial outcome) choices).
 -/
 import QiVerif.Model.Session
+import QiVerif.Model.Flood
 set_option linter.unusedSimpArgs false
 set_option linter.unusedVariables false
 namespace QiVerif.C19
@@ -476,5 +477,25 @@ theorem pinned_program_crashes : (run pinnedProg 2 init crashSchedule).panicked 
 example : (run prog 2 init crashSchedule).panicked = false ∧
     ((run prog 2 init (crashSchedule ++ [(1, true), (1, true)])).th 1).ret = .ok 0 ∧
     ((run prog 2 init crashSchedule).th 0).ret = .ok 0 := by decide
+
+/-! ### "any number of goroutines": the server's queues are bounded and the reader drops
+
+  The statement of C19 is *false* on this tree for large numbers of simultaneous requests:
+  the connection's reader never blocks, so once the per-connection queue, the hand of the
+  connection goroutine and the object's mailbox are full, further requests are answered with
+  "consumer blocked".  Recorded as a known finding; what is proved is the boundary. -/
+
+/-- while the object is busy at most `buffered` requests of one connection are held; the rest is dropped -/
+theorem flood_drops (n : Nat) (h : Flood.buffered < n) : Flood.held n < n ∧ Flood.floodOutcome n = .someDropped := by
+  unfold Flood.held Flood.floodOutcome
+  have : ¬ n ≤ Flood.consumerCap := by unfold Flood.buffered at h; omega
+  simp [this, h]; omega
+
+/-- up to the capacity of the per-connection queue nothing can be dropped -/
+theorem small_flood_served (n : Nat) (h : n ≤ Flood.consumerCap) : Flood.floodOutcome n = .allServed := by
+  simp [Flood.floodOutcome, h]
+
+/-- the refutation witness replayed by the harness: 40 simultaneous requests -/
+theorem any_number_is_refuted : Flood.floodOutcome 40 = .someDropped := by decide
 
 end QiVerif.C19
